@@ -316,30 +316,34 @@ func (c *FnCtx) appendModel(st *State, s Term, key string, hs Sort, addLen Term,
 	cp := c.fresh("appcap", SInt)
 	c.define(ge(cp, newLen))
 	oldArr := sel(h, sBase(s))
-	// fresh case: a new array F (offset 0) holding the old prefix followed by the appended elements
+	// fresh case: a new array F holding, at the same offset, the old prefix followed by the appended
+	// elements (the offset inside a fresh array is unobservable, keeping it makes element positions of
+	// the result syntactically those of the operand)
 	F := c.fresh("apparr", elemArr)
-	c.define(Term{fmt.Sprintf("(forall ((k! Int)) (! (=> (and (<= 0 k!) (< k! %s)) (= (select %s k!) (select %s (idx %s k!)))) :pattern ((select %s k!))))",
-		sLen(s).S, F.S, oldArr.S, sOff(s).S, F.S), SBool})
+	off := sOff(s)
+	end := add(off, sLen(s))
+	c.define(Term{fmt.Sprintf("(forall ((k! Int)) (! (=> (and (<= %s k!) (< k! %s)) (= (select %s k!) (select %s k!))) :pattern ((select %s k!))))",
+		off.S, end.S, F.S, oldArr.S, F.S), SBool})
 	// in-place case: the old array with the cells [off+len, off+len+n) overwritten
 	var I Term
 	if constN >= 0 {
 		I = oldArr
 		for j := 0; j < constN; j++ {
 			v := src(intLit(int64(j)))
-			I = store(I, eidx(sOff(s), add(sLen(s), intLit(int64(j)))), v)
-			c.define(eq(sel(F, add(sLen(s), intLit(int64(j)))), v))
+			pos := eidx(off, add(sLen(s), intLit(int64(j))))
+			I = store(I, pos, v)
+			c.define(eq(sel(F, pos), v))
 		}
 	} else {
 		I = c.fresh("apparr_inpl", elemArr)
-		lo := add(sOff(s), sLen(s))
 		c.define(Term{fmt.Sprintf("(forall ((k! Int)) (! (= (select %s k!) (ite (and (<= %s k!) (< k! (+ %s %s))) %s (select %s k!))) :pattern ((select %s k!))))",
-			I.S, lo.S, lo.S, addLen.S, src(sub(Term{"k!", SInt}, lo)).S, oldArr.S, I.S), SBool})
+			I.S, end.S, end.S, addLen.S, src(sub(Term{"k!", SInt}, end)).S, oldArr.S, I.S), SBool})
 		c.define(Term{fmt.Sprintf("(forall ((k! Int)) (! (=> (and (<= %s k!) (< k! (+ %s %s))) (= (select %s k!) %s)) :pattern ((select %s k!))))",
-			sLen(s).S, sLen(s).S, addLen.S, F.S, src(sub(Term{"k!", SInt}, sLen(s))).S, F.S), SBool})
+			end.S, end.S, addLen.S, F.S, src(sub(Term{"k!", SInt}, end)).S, F.S), SBool})
 	}
 	c.elemArrayWellTyped(key, F)
 	st.heaps[key] = ite(inplace, store(h, sBase(s), I), store(h, nb, F))
-	return ite(inplace, mkSlice(sBase(s), sOff(s), newLen, sCap(s)), mkSlice(nb, tZero, newLen, cp))
+	return mkSlice(ite(inplace, sBase(s), nb), off, newLen, ite(inplace, sCap(s), cp))
 }
 
 // elemArrayWellTypedIfSrc: the cells of an append result hold values of the element type (they are
